@@ -78,6 +78,21 @@ CLAIMS.update({
     },
 })
 
+CLAIMS.update({
+    "C06": {
+        "text": "Representation discipline of the group-law code, decided by an abstract interpretation that classifies every coordinate-valued expression of PointJacobi relative to p (reduced / signed difference / small multiple / wide) and by role (X, Y, Z, operand, sign): every zero / ==1 / == test on a coordinate value is exact modulo p; every point constructed or stored inside the class receives reduced components and formula results are tested for Z == 0 before construction (inductive representation invariant); x(), y(), to_affine() and the legacy Point arithmetic hand out canonical residues; a zero test of a Y-role value leads to an identity outcome only in the doubling functions (11 other sites are the recorded known finding F6); _add calls each formula helper only under the Z facts it assumes; inverse_mod is applied to the invariant-protected Z after the Z == 1 shortcut; __eq__/__ne__ pairing and NotImplemented for foreign types. Does not decide that the formulas compute chord-and-tangent sums.",
+        "note": "A1-A7; assume-guarantee on the invariant (stored coordinates are reduced): points built from external integers are the induction boundary (C08 typestate / user constructions); p - v for reduced v is classified reduced under the side condition v != 0.",
+        "technique": "abstract interpretation over a residue-class/role domain (syntax-directed, fixpoint over the class), guard-dominance and dispatch-fact checks",
+        "design": "DESIGN.md section 3 C06",
+    },
+    "C07": {
+        "text": "Sign and operand agreement of the multiplication loops: in mul_add the operand accumulated under each of the nine (sign A, sign B) digit cases is (sign A)P + (sign B)Q, the four combined points being classified from the signs of the Y arguments they were built with; __mul__ adds the negated base exactly on negative digits; _mul_precompute pairs k = 3 mod 4 with the negated table entry and (k+1)/2, k = 1 mod 4 with the entry and (k-1)/2; each digit starts with exactly one doubling and additions occur only in digit branches; NAF lists are padded to equal length; short-circuits pair each multiplier with its own point and the two fallbacks compute self*self_mul + other*other_mul; scalars are reduced only modulo a positive multiple of the declared order under `if self.__order`; C06's exactness/invariant rules hold inside the loops. The five Y == 0 sites in this code are the recorded known finding F6. Does not decide that NAF digits sum to k, table length, or result values.",
+        "note": "A1-A7; same residue/role analysis as C06; an unrecognised restructuring of the digit dispatch is ANALYSIS-ERROR, not a violation.",
+        "technique": "abstract interpretation over a sign/operand provenance domain + structural loop-shape checks",
+        "design": "DESIGN.md section 3 C07",
+    },
+})
+
 NOT_YET = "check not built yet (framework under construction; design in DESIGN.md section 3)"
 
 
